@@ -7,6 +7,7 @@ import (
 	"lunar/engine/utils"
 	sharedConfig "lunar/shared-model/config"
 	contextmanager "lunar/toolkit-core/context-manager"
+	"lunar/toolkit-core/verifhook"
 	"runtime"
 	"strings"
 
@@ -97,6 +98,7 @@ func (worker *DiagnosisWorker) NotifyTaskReady(transactionID string) {
 	log.Trace().Msgf(
 		"Scheduling goroutine to send %v to diagnosis worker", transactionID)
 	copyOfTransactionID := strings.Clone(transactionID)
+	verifhook.Point("diag.notify", "txn", copyOfTransactionID)
 	go func(transactionID string) {
 		log.Trace().Msgf("Sending %v to diagnosis worker", transactionID)
 		worker.diagnosisData <- transactionID
@@ -151,6 +153,7 @@ func (worker *DiagnosisWorker) diagnosisWorker(
 			plugins,
 			exporters,
 		)
+		verifhook.Point("diag.done", "txn", taskKey)
 
 		// Set the function as low priority to give more runtime to the remedy types.
 		runtime.Gosched()
